@@ -1,0 +1,18 @@
+//go:build verif
+
+package importer
+
+// Exports of unexported helpers for the verification harness (/verif, property C11).
+// Compiled only with `-tags verif`; adds no behaviour.
+
+// VerifGetSyslSafeName is getSyslSafeName.
+func VerifGetSyslSafeName(name string) string { return getSyslSafeName(name) }
+
+// VerifEscapeUnsafeSyslChars is escapeUnsafeSyslChars.
+func VerifEscapeUnsafeSyslChars(name string) string { return escapeUnsafeSyslChars(name) }
+
+// VerifQuote is quote.
+func VerifQuote(s string) string { return quote(s) }
+
+// VerifGetSyslSafeURI is getSyslSafeURI.
+func VerifGetSyslSafeURI(s string) string { return getSyslSafeURI(s) }
